@@ -36,6 +36,71 @@ var reasonCodes = map[byte][]byte{
 	ref.Auth:       {0x00, 0x18, 0x19},
 }
 
+// AllReasonCodes: every reason code MQTT v5.0 defines.
+var AllReasonCodes = []byte{0x00, 0x01, 0x02, 0x04, 0x10, 0x11, 0x18, 0x19, 0x80, 0x81, 0x82, 0x83, 0x84, 0x85, 0x86, 0x87, 0x88, 0x89, 0x8A, 0x8B, 0x8C, 0x8D, 0x8E, 0x8F,
+	0x90, 0x91, 0x92, 0x93, 0x94, 0x95, 0x96, 0x97, 0x98, 0x99, 0x9A, 0x9B, 0x9C, 0x9D, 0x9E, 0x9F, 0xA0, 0xA1, 0xA2}
+
+// couple makes the packet one that MEANS something in MQTT: fields that go
+// together in the protocol are present together (a redirect: reason 0x9C/0x9D
+// with a server reference and a session expiry; an authentication exchange:
+// continue/re-authenticate with method and data; request/response; a refusal
+// with its reason string). Only the combination is chosen; values stay free.
+func (g *G) couple(a *ref.AP, cfg *Cfg) {
+	t := g.T
+	ensure := func(id byte) {
+		for _, p := range a.Props {
+			if p.ID == id {
+				return
+			}
+		}
+		for _, d := range ref.AllowedIn(int(a.Type)) {
+			if d.ID != id || (!cfg.Spec && cfg.CanSet != nil && !cfg.CanSet(int(a.Type), id)) {
+				continue
+			}
+			for k := 0; k < 6; k++ {
+				if p := g.propValue(d, false); p.N != 0 || len(p.B) > 0 {
+					a.Props = append(a.Props, p)
+					return
+				}
+			}
+		}
+	}
+	pick := func(l ...byte) byte { return l[t.Int(len(l))] }
+	switch a.Type {
+	case ref.ConnAck, ref.Disconnect:
+		if t.Bool(1, 2) {
+			a.Reason = pick(0x9C, 0x9D)
+			ensure(0x1C)
+			ensure(0x11)
+		} else {
+			a.Reason = reasonCodes[a.Type][t.Int(len(reasonCodes[a.Type]))]
+			ensure(0x1F)
+			ensure(0x11)
+		}
+	case ref.Auth:
+		a.Reason = pick(0x18, 0x19, 0x00)
+		ensure(0x15)
+		ensure(0x16)
+	case ref.Connect:
+		ensure(0x15)
+		ensure(0x16)
+		ensure(0x11)
+	case ref.Publish:
+		if t.Bool(1, 2) {
+			ensure(0x08)
+			ensure(0x09)
+		} else {
+			ensure(0x01)
+			ensure(0x03)
+		}
+	case ref.PubAck, ref.PubRec, ref.PubRel, ref.PubComp:
+		a.Reason = reasonCodes[a.Type][t.Int(len(reasonCodes[a.Type]))]
+		ensure(0x1F)
+	case ref.SubAck, ref.UnsubAck:
+		ensure(0x1F)
+	}
+}
+
 func (g *G) reason(t byte) byte {
 	l := reasonCodes[t]
 	return l[g.T.Int(len(l))]
@@ -386,6 +451,9 @@ func Packet(t *sim.Tape, cfg Cfg) *ref.AP {
 		typ = order[t.Pick(ws...)]
 	}
 	a := g.ofType(typ, &cfg)
+	if t.Bool(1, 10) {
+		g.couple(a, &cfg)
+	}
 	nameTheReason(t, a)
 	if t.Bool(1, 12) {
 		tuneShift(t, a)
